@@ -56,6 +56,16 @@ CHECKS = {
          "Originators (field-shifting families, delimiter-like and empty strings), all 9 route/kind pairs through the real content router on live state, really signed MsgRequestSignature txs and tunnel packets against a genesis group; every message must parse into hash(originator)|time|id|tag|payload and decode back to the on-chain values; internal content kinds must be refused to users; PriceToTick compared with an own table walk on random prices and on every boundary of all 524287 ticks.",
          "The signing group in this check comes from genesis (no DKG); messages of DKG-created groups are covered by C03/C18 worlds. Found and fixed: signal ids with a leading zero byte aliased another id in the bytes32 encoding.",
          "DESIGN.md 2/C11"),
+ "C14": ("exploration",
+         "runtime monitoring: 18-digit truncating fixed-point reference of the oracle/bandtss/distribution allocation vs. balance, outstanding-reward and community-pool deltas of the real begin-blockers (isolated on cache contexts, and full blocks through FinalizeBlock), plus model-free conservation monitors",
+         "Isolated: 40k cases per quick run over fee pools (0..3 denoms, 0/1/2/primes/1e18), vote sets, power vectors, activity flags, 0..7 members with four DE-queue states, percentages 0..100 and tax 0..1; Full: empty blocks with inflation, absent voters and topped-up collectors; supply delta = minted, sum of balances = supply, member deltas pin the mint->oracle->bandtss->distribution order.",
+         "TSS groups/members/DE queues are written through keepers in this check (live DKG groups are exercised in the C03/C10/C13/C18 worlds). Percentages above 100 (accepted by validation) are recorded as a probe only; they belong to C02.",
+         "DESIGN.md 2/C14"),
+ "C18": ("exploration",
+         "runtime monitoring: transition state-machine model advanced only from tss group status, tss signing status and block time vs. the bandtss store after every block; hand-over message parsed independently; member list after execution; dual signing while awaiting execution; fee ledger",
+         "Histories from a DKG-created current group: proposals (valid, one ns outside the window, while busy), forced transitions, incoming DKGs completing/failing/expiring, hand-over signings completing, retrying or falling around a short exec window, idle members and concurrent paid requests; current group may change only by executing a WAITING_EXECUTION transition at/after its time to exactly the incoming group.",
+         "Whether a hand-over signing can be created (nonce availability) is observed, not predicted. Authority messages go through the msg service router between blocks.",
+         "DESIGN.md 2/C18"),
 }
 NA_REASON = "check not built yet (work in progress; see DESIGN.md section 2)"
 
